@@ -132,6 +132,17 @@ def long_values(version):
         for ch in (' ', ';', '\\', '\t') + (() if version == 1 else ('\U0001F600', 'é')):
             add('a^3000 with %r at %d' % (ch, off), 'a' * off + ch + 'a' * (3000 - off))
             add('a^2100 with %r%r at %d' % (ch, ch, off), 'a' * off + ch + ch + 'a' * (2100 - off))
+    # the same sweep for values that need the prefix protocol (first character ';', or a later line starting with ';'):
+    # prefix and fold marker must both fit next to the longest folded segment
+    for off in range(2026, 2052):
+        for ch in (' ', '\t', ';', '\\'):
+            add(';a^3000 with %r at %d' % (ch, off), ';' + 'a' * (off - 1) + ch + 'a' * (3000 - off))
+            add('x, nl, ;a^3000 with %r at %d' % (ch, off), 'x\n;' + 'a' * (off - 1) + ch + 'a' * (3000 - off))
+    for n in range(2034, 2052):
+        add(';a^n ending in a backslash', ';' + 'a' * (n - 2) + '\\')
+        add('a^n ending in a backslash', 'a' * (n - 1) + '\\')
+        add(';a^n ending in a backslash and blanks', ';' + 'a' * (n - 4) + '\\  ')
+        add('a^4090, a^n ending in a backslash', 'a' * 4090 + '\n' + 'a' * (n - 1) + '\\\nz')
     for n in (2044, 2045, 2046, 2047, 2048, 2049, 2050):
         add(';^n', ';' * n)
         add('a;^n', 'a' + ';' * n)
@@ -238,6 +249,16 @@ def structures(version):
         for i in range(6):
             deep = ('l', [deep, ('t', [('k%d' % i, deep)])]) if i % 2 else ('t', [('a', deep), ('b b', ('l', [deep]))])
         S.append(('deeply nested composite', ['cif.new C0', 'blk.create C0 %s H0' % U('b'), 'item.set H0 %s %s' % (U('_deep'), lit(deep))], False))
+        # composites long enough to be wrapped many times, shifted so that every entry kind ends at every column near the limit
+        for shift in range(0, 24):
+            for vlen in (1, 8, 23):
+                num = ('n', ('123456789' * 3)[:vlen])
+                t = ('t', [('s', ('s', 'a' * shift, True))] + [('k%d' % i, num) for i in range(330)])
+                S.append(('table of 330 numbers of %d digits, shifted by %d' % (vlen, shift), ['cif.new C0', 'blk.create C0 %s H0' % U('b'), 'item.set H0 %s %s' % (U('_t'), lit(t))], False))
+            l = ('l', [('s', 'a' * shift, True)] + [(('n', str(i)) if i % 3 else ('s', 'w%d' % i, False)) for i in range(500)])
+            S.append(('list of 500 numbers and words, shifted by %d' % shift, ['cif.new C0', 'blk.create C0 %s H0' % U('b'), 'item.set H0 %s %s' % (U('_l'), lit(l))], False))
+            tt = ('t', [('s', ('s', 'a' * shift, True))] + [('key %d' % i, [('u',), ('a',), ('s', 'v %d' % i, True), ('l', [('n', '1')]), ('t', [('k', ('n', '2'))]), ('s', 'bare%d' % i, False)][i % 6]) for i in range(300)])
+            S.append(('table of 300 mixed values, shifted by %d' % shift, ['cif.new C0', 'blk.create C0 %s H0' % U('b'), 'item.set H0 %s %s' % (U('_t'), lit(tt))], False))
         # parse then modify
         doc = "#\\#CIF_2.0\ndata_p\n_a 1\nloop_ _b _c 1 2 3 4\nsave_f _x [a b {'k':v}] save_\n"
         L = ['bytes.set B1 %s' % doc.encode().hex(), 'parse new:C0 B1', 'blk.get C0 %s H0' % U('p'), 'item.set H0 %s %s' % (U('_new'), lit(V['q'])), 'item.remove H0 %s' % U('_a'),
